@@ -199,16 +199,16 @@ CHECKS.update({
     },
     "C20": {
         "engine": "ctl", "variants": ["ctl"], "level": "fault_enumeration", "seed": 0, "claims_sanitizer": True,
-        "quick": T(9216, 60), "thorough": T(200000, 600),
-        "rule": "families of 64 seeds = (initial content from 9 fixed + generated files incl. absent and files of 230-600 entries that exceed one stdio buffer, enable or disable): slot 0 = census of the simulated system calls of the fault-free run; slots 1..n+1 = the process is killed immediately before simulated call k (k = n+1: after the last), which covers 'before and after every call'; further slots = each write-type call (open for writing, write, close, fsync, rename) failing with ENOSPC, EIO, EDQUOT or writing short; afterwards the preload file must equal the old or the model's complete new content. "
+        "quick": T(40960, 60), "thorough": T(600000, 600),
+        "rule": "families of 256 seeds = (initial content from 9 fixed + generated files incl. absent and files of 230-600 entries that exceed one stdio buffer, enable or disable): slot 0 = census of the simulated system calls of the fault-free run; slots 1..n+1 = the process is killed immediately before simulated call k (k = n+1: after the last), which covers 'before and after every call'; further slots = each write-type call (open for writing, write, close, fsync, rename) failing with ENOSPC, EIO, EDQUOT or writing short; then the same errors persisting from that call on (a full disk stays full); then one ENOSPC followed by a kill before each later call (error paths are killed too); afterwards the preload file must equal the old or the model's complete new content. "
                 "non-trivial = crash or fault fired (or census); distinct = (operation, content hash, mode, crash index, fault)",
-        "probes": ["census", "crash_fired", "enospc", "write_error", "short_write"],
+        "probes": ["census", "crash_fired", "enospc", "write_error", "short_write", "sticky_fault", "fault_then_crash"],
     },
 })
 MANIFEST_TEXT.update({
     "C18": {"level_text": "exhaustive over all preload files of <= 4 lines from a 9-line alphabet (x final newline, + absent), seeded beyond from a larger line grammar: result of enable is byte-identical old content or old + optional newline + path + newline as the statement allows, exit status, idempotence (second enable), status afterwards", "level_note": _CTL_ASSUME, "technique": "deterministic simulation (fault-free configuration of the crash simulator) with reference-model refinement; exhaustive small alphabet + seeded generation"},
     "C19": {"level_text": "same state space as C18: every foreign token and every other line survives disable byte for byte and in order, untouched when absent or refused, enable-then-disable round trip", "level_note": _CTL_ASSUME, "technique": "deterministic simulation (fault-free configuration of the crash simulator) with reference-model refinement; exhaustive small alphabet + seeded generation"},
-    "C20": {"level_text": "crash-point enumeration: for each (initial content, operation) the run is killed before every simulated system call and after the last, and every write-type call fails with ENOSPC/EIO/EDQUOT or writes short; the file must then hold the complete previous or the complete new content", "level_note": _CTL_ASSUME, "technique": "deterministic simulation with fault injection: census of simulated system calls, then one run per crash point and per failing write-type call"},
+    "C20": {"level_text": "crash-point enumeration: for each (initial content, operation) the run is killed before every simulated system call and after the last, and every write-type call fails with ENOSPC/EIO/EDQUOT (once, or from then on) or writes short, or fails once and the run is killed later; the file must then hold the complete previous or the complete new content", "level_note": _CTL_ASSUME, "technique": "deterministic simulation with fault injection: census of simulated system calls, then one run per crash point, per failing write-type call (one-shot and persistent) and per (failing call, later crash point) pair"},
 })
 _TECH = {
     "C01": "deterministic simulation: production wrappers hosted under a simulated OS with an exec recorder at dlsym(RTLD_NEXT); seeded generation of inputs, configurations, exec outcomes and sampled I/O faults; history oracle",
